@@ -123,7 +123,7 @@ def ref_defects(coin, f):
     return d
 
 
-def oracle(op: str, out: str):
+def _oracle(op: str, out: str):
     a = op.split(" ")
     k = a[0]
     coin = a[1]
@@ -134,6 +134,8 @@ def oracle(op: str, out: str):
         d = ref_defects(coin, f)
         if d and out == "ok":
             return "accepted although: " + ", ".join(d)
+        if d and out.startswith("err raised:"):
+            return "a listed defect (%s) left check() as %s instead of ValidationFailureError" % (", ".join(d), out[11:])
         if not d and out.startswith("err") and not out.startswith("err raised:"):
             if txlib.fields_in_range(f) and len(txlib.ref_wire(f)) <= REF_MAX_SIZE:
                 return "rejected (%s) although no listed defect and total size <= 1,000,000" % out[4:]
@@ -146,6 +148,15 @@ def oracle(op: str, out: str):
         if ref_is_coinbase(f) and out != "ok 0":
             return "coinbase transaction counted as having unsigned inputs"
     return None
+
+
+def oracle(op: str, out: str):
+    """the property evaluated on the implementation alone; an exception escaping the implementation while a round trip is
+    evaluated is a failure of the property (every direct call is on inputs the property covers)"""
+    try:
+        return _oracle(op, out)
+    except Exception as e:  # noqa: BLE001
+        return "the implementation raised %s while the property was evaluated on it" % type(e).__name__
 
 
 def trivial(op: str) -> bool:
@@ -271,6 +282,33 @@ def gen(ctx, emit):
                     ids = list(range(n))
                     ids[j] = i                                            # the very same object twice
                     E(coin, (1, 0, ins, good_out), ids=ids)
+    # duplicate outpoints at any two positions i<j with every kind of filler between them: other outputs of the SAME
+    # previous transaction, the same index of other transactions, many fillers; always distinct TxIn objects, with equal
+    # and with different scripts/sequences
+    for coin in COINS:
+        hA, hB = H(40), H(41)
+        pools = {
+            "same_hash": lambda k: nin(hA, 1 + k),
+            "same_index": lambda k: nin(H(50 + k), 0),
+            "mixed": lambda k: nin(hA, 1 + k) if k % 2 == 0 else nin(hB, k),
+        }
+        for fill_name, fill in pools.items():
+            for n_fill in ((0, 1, 2, 3, 7) if coin == "btc" else (1, 2)):
+                for same_fields in (True, False):
+                    first = nin(hA, 0, b"\x51", 7)
+                    last = nin(hA, 0, b"\x51", 7) if same_fields else nin(hA, 0, b"\x52\x53", 9)
+                    mid = [fill(k) for k in range(n_fill)]
+                    for lead in (0, 1):
+                        ins = [nin(H(60), 5)] * lead + [first] + mid + [last]
+                        E(coin, (1, 0, ins, good_out))                       # duplicate: must be rejected
+                        E(coin, (1, 0, ins + [nin(H(61), 0)], good_out))
+                        ok_last = nin(hA, 100, last[2], last[3])
+                        E(coin, (1, 0, [nin(H(60), 5)] * lead + [first] + mid + [ok_last], good_out))   # no duplicate: accepted
+        # the seeded shape itself: (h,0),(h,1),(h,0) and longer alternations
+        E(coin, (1, 0, [nin(hA, 0), nin(hA, 1), nin(hA, 0)], good_out))
+        E(coin, (1, 0, [nin(hA, 0), nin(hA, 1), nin(hA, 2), nin(hA, 1)], good_out))
+        E(coin, (1, 0, [nin(hA, 0), nin(hB, 0), nin(hA, 1), nin(hB, 1), nin(hA, 0)], good_out))
+        E(coin, (1, 0, [nin(hA, 0), nin(hA, 1), nin(hA, 2), nin(hA, 3)], good_out))
     # sizes around 1,000,000 (few: each costs ~0.1 s)
     sizes = [(1_000_000, 0), (1_000_001, 0), (999_999, 0), (999_000, 2000)]
     if ctx.thorough:
@@ -290,6 +328,12 @@ def gen(ctx, emit):
     def rs(n):
         return bytes(rng.randrange(256) for _ in range(n))
 
+    for _ in range(ctx.n(3000, 40000)):
+        coin = rng.choice(COINS)
+        pool_h = [rs(32) for _p in range(rng.choice([1, 2, 3]))]
+        n_in = rng.choice([2, 3, 3, 4, 5, 8])
+        ins = [nin(rng.choice(pool_h), rng.randrange(rng.choice([2, 3, 5])), rs(rng.choice([0, 0, 2])), rng.choice([0, NULL_INDEX])) for _j in range(n_in)]
+        E(coin, (1, 0, ins, [(5, b"\x51")]))
     for _ in range(ctx.n(12000, 150000)):
         coin = rng.choice(COINS)
         mm = REF_MAX_MONEY[coin]
